@@ -1,6 +1,7 @@
 /-
   BB.Lemmas.SuccTwoRun2 — `two_run_ghost` (Lemmas/SuccTwoRun) with the lists and walks around the two
-  pseudo-instruction passes exposed (what `near_range` needs).
+  pseudo-instruction passes exposed (what `near_range` needs), and the ghost lists tied to the decided lists
+  (`strip` of the ghost list IS the list the pipeline holds before resolve_aligns).
 -/
 import BB.Lemmas.SuccMain2
 namespace BB.Lemmas
@@ -38,7 +39,9 @@ theorem two_run_ghost2 (H : Hooks) (items : List Item) (hyp : GrowHyps H items) 
       (labelNames B6).Nodup ∧ labelNames B6 = labelNames items ∧
       (∀ ℓ u, labelPos (alignImg (resolveRegisterAliases A4 constants) 0) 0 ℓ = some u → la7.get ℓ = some u) ∧
       (∀ ℓ u, labelPos (alignImg B6 0) 0 ℓ = some u → lb7.get ℓ = some u) ∧
-      Blocks items B6 := by
+      Blocks items B6 ∧
+      strip (resolveRegisterAliases A4 constants) = resolveRegisterAliases a4 constants ∧ strip B6 = b6 ∧
+      labelNames (resolveRegisterAliases A4 constants) = labelNames items := by
   simp only [maybeCompress, if_true, transformCompressible] at hb3 hb6
   unfold transformPseudo at ha4 hb4
   unfold resolveAligns at ha7 hb7
@@ -109,7 +112,7 @@ theorem two_run_ghost2 (H : Hooks) (items : List Item) (hyp : GrowHyps H items) 
     exact k5.trans (walk_blocks _ (fun it _ => compressBody_blk H constants it) 0 lb4 B6 lb6 wb6)
   exact ⟨B3, A4, B4, B6, hiw3, wb4, hcorr4, walk_compress_IWd H constants _ 0 lb4 B6 lb6 wb6, wb7,
     sb3.nonneg, sb3.nodup, sb3.names_eq, sb3.agree, sb3.low, hszB3, wa4, hcorr6, sa7.strip_eq, sb7.strip_eq, sa5.nonneg, sb6.nonneg, sb6.nodup, sb6.names_eq,
-    sa7.agree, sb7.agree, hblocks⟩
+    sa7.agree, sb7.agree, hblocks, sa5.strip_eq, sb6.strip_eq, sa5.names_eq⟩
 
 
 end BB.Lemmas
